@@ -154,12 +154,18 @@ class Unit:
                 denominator[0] = unit
         if numerator[1] not in ('U', 'mol', 'L', 'g') or denominator[0] not in ('U', 'mol', 'L', 'g'):
             raise ValueError("Concentration must be of the form '1 umol/mL'.")
-        # rounded to the internal precision; a value below 1 keeps that many *significant* digits instead of decimals
-        # (in mol/L ten decimals are a tenth of a nanomolar: '0.25 nM' was read as 0.3 nM)
+        return Unit.round_concentration(numerator[0]), numerator[1], denominator[0]
+
+    @staticmethod
+    def round_concentration(value: float) -> float:
+        """
+        Rounds to the internal precision; a value below 1 keeps that many *significant* digits instead of decimals
+        (in mol/L ten decimals are a tenth of a nanomolar: '0.25 nM' was read as 0.3 nM).
+        """
         digits = config.internal_precision
-        if numerator[0] != 0 and abs(numerator[0]) < 1:
-            digits -= int(numpy.floor(numpy.log10(abs(numerator[0])))) + 1
-        return round(numerator[0], digits), numerator[1], denominator[0]
+        if value != 0 and abs(value) < 1:
+            digits -= int(numpy.floor(numpy.log10(abs(value)))) + 1
+        return round(value, digits)
 
     @staticmethod
     def convert_from(substance: Substance, quantity: float, from_unit: str, to_unit: str) -> float:
@@ -1080,7 +1086,7 @@ class Container:
                 else:
                     denominator += Unit.convert_from(substance, amount, config.moles_storage_unit, units[1])
 
-        return round(numerator / denominator / mult, config.internal_precision)
+        return Unit.round_concentration(numerator / denominator / mult)
 
     def get_volume(self, unit: str = None) -> float:
         """
